@@ -34,7 +34,7 @@ def diff_paths(a, b, path=()):
 
 
 AST_LEAF = {"line": {"C04"}, "col": {"C04"}, "id": {"C11"}, "kw": {"C05", "C03"}, "kwt": {"C05"}, "lang": {"C05"}, "name": {"C03"},
-            "text": {"C03"}, "desc": {"C03"}, "value": {"C12"}, "content": {"C13"}, "delim": {"C13"}, "media": {"C13"}, "t": {"C03", "C02"}}
+            "text": {"C03"}, "desc": {"C03"}, "value": {"C12", "C03"}, "content": {"C13"}, "delim": {"C13"}, "media": {"C13"}, "t": {"C03", "C02"}}
 
 
 def owners_ast(spec, impl) -> set[str]:
@@ -152,6 +152,9 @@ def trace_findings(result: dict, rec: dict) -> list[tuple[set[str], str, dict]]:
         out.append((owners_pickles(spec, rec["pickles"]) or set(TRACE_PROPS), "end:pickles", {"spec": spec, "impl": rec["pickles"], "paths": [list(map(str, p)) for p in diff_paths(spec, rec["pickles"])[:10]]}))
     if not v["ids"]:
         out.append(({"C11"}, "end:ids", det["ids"][0] if det["ids"] else {}))
+    if rec.get("pickles_again", rec["pickles"]) != rec["pickles"]:
+        out.append((owners_pickles(rec["pickles"], rec["pickles_again"]) | {"C15"}, "compiler-reuse",
+                    {"what": "a second compile() with the same Compiler gives a different result", "first": rec["pickles"], "second": rec["pickles_again"]}))
     for k, ok in e["p"].items():
         if not ok:
             out.append(({PRED_OWNER[k.split("_")[0]]}, f"predicate:{k}", {"predicate": k, "evaluated_on": "implementation result"}))
